@@ -210,7 +210,7 @@ class Emulsion(list):
                 filter vanished droplets.
         """
         droplets: list[SphericalDroplet] = [
-            droplet.copy() for droplet in self if droplet.radius > min_radius
+            droplet.copy() for droplet in self if not droplet.radius <= min_radius
         ]
         return self.__class__(droplets, copy=False)
 
